@@ -59,6 +59,8 @@ def unroll_corpus(tier):
     for I, G in b["feedthrough"]:
         for gates in space.circuits(I, G, max_arity=2, min_gates=1):
             yield space.to_desc(I, gates, outputs="all")
+    for gates in space.circuits(0, 2, types=("and", "xor", "not"), max_arity=2, consts=("0", "1"), min_gates=1):
+        yield space.to_desc(0, gates, consts=("0", "1"), outputs="sinks")   # no primary input at all
 
 
 def check_unroll(acc, desc, state_io, n):
